@@ -27,7 +27,12 @@ MERGED_FIXTURES = ["test-titles.numbers", "test-9.numbers", "issue-77.numbers", 
 
 def gen_rect(g, tm, rng):
     r0, c0 = rng.randrange(tm.nrows), rng.randrange(tm.ncols)
-    shape = rng.choice(["row", "col", "box", "box", "edge"])
+    shape = rng.choice(["row", "col", "box", "box", "edge", "fullwidth", "fullheight"])
+    if shape == "fullwidth":
+        # every column of 1..3 rows: the rows below the anchor row consist of placeholders only
+        return [r0, 0, r0 + rng.randint(0, 2), tm.ncols - 1]
+    if shape == "fullheight":
+        return [0, c0, tm.nrows - 1, c0 + rng.randint(0, 1)]
     if shape == "row":
         return [r0, c0, r0, c0 + rng.randint(1, 3)]
     if shape == "col":
